@@ -1,9 +1,12 @@
 #!/bin/bash
 # usage: tools/seed_confirm.sh <worktree>   - confirm an agent's deliverable inside its own worktree:
-# demo passes without the change, fails with it.
+# demo fails with the change, passes without it (the change is reverted with `git apply -R` and re-applied).
 WT="$1"; cd "$WT" || exit 2
-echo "== with change:"; PYTHONPATH="$WT" timeout 900 /venv/bin/python demo.py > /tmp/seed_demo_with.log 2>&1; echo "rc=$?"; tail -3 /tmp/seed_demo_with.log | cut -c1-300
-git stash -q -- accelforge || { echo "stash failed"; exit 2; }
-echo "== without change:"; PYTHONPATH="$WT" timeout 900 /venv/bin/python demo.py > /tmp/seed_demo_without.log 2>&1; echo "rc=$?"; tail -3 /tmp/seed_demo_without.log | cut -c1-300
-git stash pop -q
+N=$(basename "$WT")
+git diff -- accelforge > /tmp/seed_$N.cur.diff
+[ -s /tmp/seed_$N.cur.diff ] || { echo "no change applied in $WT"; exit 2; }
+echo "== with change:"; PYTHONPATH="$WT" timeout 1800 /venv/bin/python demo.py > /tmp/seed_${N}_with.log 2>&1; echo "rc=$?"; tail -3 /tmp/seed_${N}_with.log | cut -c1-300
+git apply -R /tmp/seed_$N.cur.diff || { echo "revert failed"; exit 2; }
+echo "== without change:"; PYTHONPATH="$WT" timeout 1800 /venv/bin/python demo.py > /tmp/seed_${N}_without.log 2>&1; echo "rc=$?"; tail -3 /tmp/seed_${N}_without.log | cut -c1-300
+git apply /tmp/seed_$N.cur.diff
 git diff --stat -- accelforge | tail -2
